@@ -61,7 +61,7 @@ double complex _vnacommon_lu(complex double *a, int *row_index, int n)
 		max = temp;
 	    }
 	}
-	row_scale[i] = max;
+	row_scale[i] = 1.0 / max;
 	row_index[i] = i;
     }
 
